@@ -436,6 +436,7 @@ type sig struct {
 }
 
 type varInfo struct {
+	cv     *cval // float mode: the name stands for a constant (a local const, the counter of an unrolled loop)
 	coq    string
 	t      typ
 	fields map[string]string // struct receiver: field -> Coq name
@@ -1082,6 +1083,33 @@ func (c *fctx) block(ss []ast.Stmt, sc *scope, k func() string) string {
 		if !ok {
 			c.fail(s, "local declaration")
 		}
+		if gd.Tok == token.CONST && c.fmode {
+			// a local constant: its value, evaluated as the compiler does
+			for _, sp := range gd.Specs {
+				vs := sp.(*ast.ValueSpec)
+				if len(vs.Values) != len(vs.Names) {
+					c.fail(s, "const declaration without explicit values")
+				}
+				for i, n := range vs.Names {
+					cv := c.constEval(sc, vs.Values[i])
+					if cv == nil {
+						c.fail(vs.Values[i], "the value %s of the constant is not a numeric constant expression of the subset", exprString(vs.Values[i]))
+					}
+					if vs.Type != nil {
+						switch exprString(vs.Type) {
+						case "float64":
+							cv = &cval{v: round64(c, vs.Values[i], cv.v), float: true, typed: true}
+						case "int64", "int":
+							cv = &cval{v: constant.ToInt(cv.v), typed: true}
+						default:
+							c.fail(vs.Type, "constant of type %s", exprString(vs.Type))
+						}
+					}
+					sc.vars[n.Name] = &varInfo{cv: cv, coq: "?", t: typ{k: kUntyped}}
+				}
+			}
+			return next()
+		}
 		if gd.Tok != token.VAR {
 			c.fail(s, "local %s declaration", gd.Tok)
 		}
@@ -1180,6 +1208,10 @@ func (c *fctx) block(ss []ast.Stmt, sc *scope, k func() string) string {
 	case *ast.ForStmt:
 		if c.prefix && sc == c.top {
 			return c.resultLoop(x, sc)
+		}
+		if c.fmode {
+			// `for i := c0; i < c1; i++ { .. }` with constant bounds: the body once per value of the counter
+			return c.unroll(x, sc, next)
 		}
 		c.fail(s, "for loop")
 	case *ast.ExprStmt:
